@@ -229,6 +229,8 @@ pub struct MemcheckReport {
     pub errors: usize,
     pub processes: usize,
     pub died: usize,
+    /// processes stopped when the lane's wall-clock budget ran out (their remaining programs are not judged)
+    pub stopped_at_budget: usize,
     pub first_error: String,
     pub log_dir: String,
     pub wall_s: f64,
@@ -258,7 +260,8 @@ pub fn run_memcheck(family: &str, prop: &str, tier: u8, seed: u64, total: usize,
             .args(["--tool=memcheck", "--leak-check=no", "--error-exitcode=0", "--num-callers=25", "--error-limit=no", "-q"])
             .arg(format!("--log-file={}", log.display()))
             .arg(&exe)
-            .args(["worker", family, prop, &tier.to_string(), &seed.to_string(), &(w * step).to_string(), &(nproc * step).to_string(), &(count * step).min(total).to_string()])
+            // the programs of the quick tier (small iteration caps) in both tiers: under valgrind a thorough-tier program can take an hour
+            .args(["worker", family, prop, "0", &seed.to_string(), &(w * step).to_string(), &(nproc * step).to_string(), &(count * step).min(total).to_string()])
             .env("LV_UNDER_VALGRIND", "1")
             .stdin(Stdio::null())
             .stdout(Stdio::from(out))
@@ -267,14 +270,47 @@ pub fn run_memcheck(family: &str, prop: &str, tier: u8, seed: u64, total: usize,
             .ok()?;
         children.push(child);
     }
+    // wall-clock budget of the lane: what has not completed by then is not judged (reported as such in the evidence)
+    let budget = Duration::from_secs(if tier == 0 { 240 } else { 1500 });
     let mut died = 0;
-    for mut c in children {
-        match c.wait() {
-            Ok(s) if s.success() => {}
-            _ => died += 1,
+    let mut stopped = 0;
+    let mut running: Vec<Option<std::process::Child>> = children.into_iter().map(Some).collect();
+    loop {
+        let mut alive = 0;
+        for slot in running.iter_mut() {
+            if let Some(c) = slot {
+                match c.try_wait() {
+                    Ok(Some(s)) => {
+                        if !s.success() {
+                            died += 1;
+                        }
+                        *slot = None;
+                    }
+                    Ok(None) => alive += 1,
+                    Err(_) => {
+                        died += 1;
+                        *slot = None;
+                    }
+                }
+            }
         }
+        if alive == 0 {
+            break;
+        }
+        if t0.elapsed() > budget {
+            for slot in running.iter_mut() {
+                if let Some(c) = slot {
+                    let _ = c.kill();
+                    let _ = c.wait();
+                    stopped += 1;
+                    *slot = None;
+                }
+            }
+            break;
+        }
+        std::thread::sleep(Duration::from_millis(100));
     }
-    let mut rep = MemcheckReport { programs: count, completed: 0, errors: 0, processes: nproc, died, first_error: String::new(), log_dir: dir.display().to_string(), wall_s: 0.0, violations_in_sample: 0 };
+    let mut rep = MemcheckReport { programs: count, completed: 0, errors: 0, processes: nproc, died, stopped_at_budget: stopped, first_error: String::new(), log_dir: dir.display().to_string(), wall_s: 0.0, violations_in_sample: 0 };
     for w in 0..nproc {
         if let Ok(s) = std::fs::read_to_string(dir.join(format!("out-{}.txt", w))) {
             for l in s.lines() {
